@@ -12,6 +12,7 @@ K      : Model/Recursions.lean (hansenlaw_transform, direct_transform python bac
          the matrix models vs the implementation's arrays (harness/methods.corr_operators); for every method the
          implementation is compared with *its own extracted operator*: T(X) == X @ operator_of(T) — i.e. the
          implementation really is the fixed matrix form the theorems are about
+         is_uniform_sampling vs Model/Grid.lean on grids of every kind in units 1e-18 … 1e+9 (theorem: Props/C02Grid.lean)
 S      : linearity on random pairs (negative values), row independence (bit-for-bit), dr scaling, NNLS positive
          homogeneity, integer dtypes, image tools, abel.Transform settings; sparse images (one column, a band between empty
          borders) = X @ operator; integer images through set_center; explicit grids in units from 1e-16 to 1e3
@@ -237,6 +238,35 @@ def oracle_units(ck, tier, deep):
                                      f"{'times' if direction == 'forward' else 'divided by'} the unit (rel {dev:.3g})")
 
 
+def corr_uniformity(ck, tier):
+    """abel.direct.is_uniform_sampling vs the Lean model (Model/Grid.lean; Props/C02Grid.lean: the verdict does not depend on the unit of
+    length) on uniform, offset, perturbed and smoothly non-uniform grids in units from 1e-18 to 1e+9 (perturbations well away from the
+    borderline 1e-13 of the largest coordinate: 1e-16 and below, or 1e-10 and above, relative)"""
+    import abel
+    from harness.common import arr2h, drive
+    rng = np.random.default_rng(seed() + 4242)
+    lines, refs = [], []
+    for it in range(60 if tier == "quick" else 600):
+        n = int(rng.integers(2, 40))
+        i = np.arange(n, dtype=float)
+        kind = it % 5
+        base = [i * float(rng.uniform(0.1, 3)), float(rng.uniform(1, 50)) + i * float(rng.uniform(0.1, 3)), i * (1 + 0.004 * i),
+                np.cumsum(1.0007 ** i), i * 0.7][kind]
+        if kind == 4 and n > 2:                       # one sample displaced: by rounding-size noise (still uniform) or clearly
+            k = int(rng.integers(1, n))
+            base = base.copy()
+            base[k] += base[-1] * float(rng.choice([1e-17, -1e-17, 1e-9, -1e-7, 1e-3]))
+        unit = float(10.0 ** rng.integers(-18, 10))
+        r = base * unit
+        lines.append(f"isuniform {n} {arr2h(r)}")
+        refs.append((kind, n, unit, r, bool(abel.direct.is_uniform_sampling(r))))
+    for out, (kind, n, unit, r, got) in zip(drive(lines), refs):
+        ck.count(("K.uniform", kind, n > 2, int(np.log10(unit)) // 6), suite="K.uniformity")
+        if out.split() != ["ok", "1" if got else "0"]:
+            ck.disagree("K.uniformity", dict(kind=kind, n=n, unit=unit, r=r.tolist()),
+                        f"is_uniform_sampling says {got}, the Lean model {out} (grid kind {kind}, unit {unit:g})")
+
+
 def oracle_tools(ck, tier, deep):
     """image tools that are linear by definition + abel.Transform settings"""
     import abel
@@ -415,10 +445,12 @@ def run(tier):
         ck.broken.append(dict(kind="translator", module="gen_tables", why=(p.stderr or p.stdout)[-800:]))
     ck.proofs("PyAbel.Props.C04")
     ck.proofs("PyAbel.Props.C04Recursions")
+    ck.proofs("PyAbel.Props.C02Grid")          # the uniformity test of explicit radial grids is independent of the unit of length
     ok, log = ensure_driver()
     if ok:
         corr_operators(ck, tier)
         corr_recursions(ck, tier)
+        corr_uniformity(ck, tier)
     else:
         ck.broken.append(dict(kind="proof", module="pyabel_drv", why="driver build failed", log=log[-1500:]))
     oracle_methods(ck, tier, deep or bool(ck.broken))
